@@ -38,21 +38,41 @@ func ruleRecordWalkComplete(c *Ctx, r *Report) {
 		if !ok {
 			return false
 		}
-		ln, ok := stripConv(bo.X).(*ssa.Call)
-		if !ok || calleeName(&ln.Call) != "builtin:len" {
+		isLen := func(v ssa.Value) bool {
+			ln, ok := stripConv(v).(*ssa.Call)
+			if !ok || calleeName(&ln.Call) != "builtin:len" {
+				return false
+			}
+			_, isSl := ln.Call.Args[0].Type().Underlying().(*types.Slice)
+			return isSl
+		}
+		if isLen(bo.X) {
+			if k, isK := constInt(bo.Y); isK && k == 0 {
+				switch bo.Op {
+				case token.NEQ, token.GTR:
+					return t == b.Succs[1]
+				case token.EQL, token.LEQ:
+					return t == b.Succs[0]
+				}
+				return false
+			}
+			// len(x) > offset ... (a walk by a running offset)
+			switch bo.Op {
+			case token.GTR:
+				return t == b.Succs[1]
+			case token.LEQ:
+				return t == b.Succs[0]
+			}
 			return false
 		}
-		if _, isSl := ln.Call.Args[0].Type().Underlying().(*types.Slice); !isSl {
-			return false
-		}
-		if k, isK := constInt(bo.Y); !isK || k != 0 {
-			return false
-		}
-		switch bo.Op {
-		case token.NEQ, token.GTR:
-			return t == b.Succs[1]
-		case token.EQL, token.LEQ:
-			return t == b.Succs[0]
+		if isLen(bo.Y) {
+			// offset < len(x)
+			switch bo.Op {
+			case token.LSS:
+				return t == b.Succs[1]
+			case token.GEQ:
+				return t == b.Succs[0]
+			}
 		}
 		return false
 	}
@@ -147,19 +167,45 @@ func ruleCursorAdvanceIsDeclared(c *Ctx, r *Report) {
 		if data == nil {
 			continue
 		}
-		fromInput := func(v ssa.Value) bool {
-			for i := 0; i < 6; i++ {
-				switch x := v.(type) {
-				case *ssa.Slice:
-					v = x.X
-					continue
-				case *ssa.Parameter:
-					return x == data
+		// the input, a slice of it, the remainder a reader helper hands back, or a merge of these
+		// (a shrinking `rest`)
+		var fromInputD func(v ssa.Value, d int, busy map[ssa.Value]bool) bool
+		fromInputD = func(v ssa.Value, d int, busy map[ssa.Value]bool) bool {
+			if d > 12 || busy[v] {
+				return busy[v] && d <= 12
+			}
+			switch x := v.(type) {
+			case *ssa.Slice:
+				return fromInputD(x.X, d+1, busy)
+			case *ssa.Parameter:
+				return x == data
+			case *ssa.Phi:
+				busy[v] = true
+				defer delete(busy, v)
+				for _, e := range x.Edges {
+					if !fromInputD(e, d+1, busy) {
+						return false
+					}
 				}
-				break
+				return len(x.Edges) > 0
+			case *ssa.Extract:
+				hc, ok := x.Tuple.(*ssa.Call)
+				if !ok {
+					return false
+				}
+				g := hc.Call.StaticCallee()
+				if g == nil || !inModule(g) || !returnsPieceOfInput(c, g, x.Index) {
+					return false
+				}
+				for _, a := range hc.Call.Args {
+					if isByteSlice(a.Type()) && fromInputD(a, d+1, busy) {
+						return true
+					}
+				}
 			}
 			return false
 		}
+		fromInput := func(v ssa.Value) bool { return fromInputD(v, 0, map[ssa.Value]bool{}) }
 		// positions into the input
 		var positions []ssa.Value
 		var at []ssa.Instruction
@@ -222,16 +268,18 @@ func ruleCursorAdvanceIsDeclared(c *Ctx, r *Report) {
 					var decoded []string
 					for _, l := range c.Origins(arg, 0) {
 						var call *ssa.Call
+						idx := 0
 						switch y := l.(type) {
 						case *ssa.Call:
 							call = y
 						case *ssa.Extract:
 							call, _ = y.Tuple.(*ssa.Call)
+							idx = y.Index
 						case *ssa.MakeSlice:
 							decoded = append(decoded, "a list built by this decoder")
 						}
 						if call != nil {
-							if g := call.Call.StaticCallee(); g != nil && inModule(g) {
+							if g := call.Call.StaticCallee(); g != nil && inModule(g) && !returnsPieceOfInput(c, g, idx) {
 								decoded = append(decoded, "the result of "+short(g))
 							}
 						}
@@ -337,23 +385,43 @@ func ruleSecondHelloSource(c *Ctx, r *Report) {
 			}
 		}
 		good, why := false, "it is "+shapeOf(arg, 0)
-		switch x := arg.(type) {
-		case *ssa.TypeAssert:
-			// pull.Messages[T] with pull the result of a cache pull made in this function
-			if lk, isLk := x.X.(*ssa.Lookup); isLk {
-				if _, f, base, isF := fieldLoad(lk.X); isF && f == "Messages" {
-					if al, isAl := rootOf(base).(*ssa.Alloc); isAl {
-						for _, ref := range *al.Referrers() {
-							if st, isSt := ref.(*ssa.Store); isSt && st.Addr == ssa.Value(al) {
-								if pc, isCall := st.Val.(*ssa.Call); isCall && strings.Contains(calleeName(&pc.Call), "Cache).FullPullMap") {
-									good = true
-								}
+		// the pull and the type assertion may sit in a helper of the package that hands the
+		// message back: then every message it returns is judged inside it
+		if ex, isEx := arg.(*ssa.Extract); isEx {
+			if hc, isCall := ex.Tuple.(*ssa.Call); isCall {
+				if h := hc.Call.StaticCallee(); h != nil && h.Pkg == f2.Pkg && len(h.Blocks) > 0 && !strings.HasSuffix(calleeName(&hc.Call), "ClientHelloFromSnapshot") {
+					all, cnt := true, 0
+					for _, hb := range h.Blocks {
+						hret, isRet := hb.Instrs[len(hb.Instrs)-1].(*ssa.Return)
+						if !isRet || hb == h.Recover || ex.Index >= len(hret.Results) {
+							continue
+						}
+						hv := unspill(hret.Results[ex.Index])
+						if isNilConst(hv) {
+							continue
+						}
+						cnt++
+						if hx, isHx := hv.(*ssa.Extract); isHx && hx.Index == 0 {
+							if ta, isTA := hx.Tuple.(*ssa.TypeAssert); isTA {
+								hv = ta
 							}
 						}
-					} else if pc, isCall := base.(*ssa.Call); isCall && strings.Contains(calleeName(&pc.Call), "Cache).FullPullMap") {
+						ta, isTA := hv.(*ssa.TypeAssert)
+						if !isTA || !pulledMessage(ta, rootOf) {
+							all = false
+						}
+					}
+					if all && cnt > 0 {
 						good = true
 					}
 				}
+			}
+		}
+		switch x := arg.(type) {
+		case *ssa.TypeAssert:
+			// pull.Messages[T] with pull the result of a cache pull made in this function
+			if pulledMessage(x, rootOf) {
+				good = true
 			}
 		case *ssa.Extract:
 			dec, isCall := x.Tuple.(*ssa.Call)
@@ -541,13 +609,20 @@ func ruleReceivePositionsKept(c *Ctx, r *Report) {
 			continue
 		}
 		good, why := false, "it is "+shapeOf(st.Val, 0)
+		if keepsPrefix(c, st.Val, isField, 0, map[ssa.Value]bool{}) {
+			good = true
+		}
 		switch x := unspill(st.Val).(type) {
 		case *ssa.Call:
 			name := calleeName(&x.Call)
 			switch {
 			case name == "builtin:append" && isField(x.Call.Args[0]):
 				good = true
+			case name == "builtin:append" && len(x.Call.Args) == 2 && isField(x.Call.Args[1]):
+				good = true // append(make(...), old...): the old positions first
 			case (strings.HasPrefix(name, "slices.Clone[") || name == "slices.Clone") && isField(x.Call.Args[0]):
+				good = true
+			case strings.HasPrefix(name, "slices.Grow[") && isField(x.Call.Args[0]):
 				good = true
 			}
 		case *ssa.UnOp:
@@ -564,6 +639,13 @@ func ruleReceivePositionsKept(c *Ctx, r *Report) {
 				why = "it is a fresh slice into which the earlier positions are not copied"
 			}
 		case *ssa.Slice:
+			// a re-slice of the grown field: slices.Grow(old, n)[:k], old[:k] within capacity
+			if gc, ok := x.X.(*ssa.Call); ok && strings.HasPrefix(calleeName(&gc.Call), "slices.Grow[") && isField(gc.Call.Args[0]) && x.Low == nil {
+				good = true
+			}
+			if isField(x.X) && x.Low == nil {
+				good = true
+			}
 			if mk, ok := x.X.(*ssa.MakeSlice); ok {
 				for _, ref := range *mk.Referrers() {
 					if cp, ok := ref.(*ssa.Call); ok && calleeName(&cp.Call) == "builtin:copy" && isField(cp.Call.Args[1]) && instrDominates(cp, st.Instr) {
@@ -575,6 +657,12 @@ func ruleReceivePositionsKept(c *Ctx, r *Report) {
 			good = x.Value == nil && strings.Contains(key, "internal/state.") // reset of a state under its own package's control
 		}
 		r.Check(good, rule, key, c.ipos(st.Instr), "the receive positions are extended, never replaced", "the per-epoch receive positions are replaced by a value that does not carry the earlier ones ("+why+"): the position of every earlier epoch reads zero afterwards, so a delayed DTLS 1.3 record of the epoch before a key update is rebuilt with the wrong record number, fails to open and is dropped although it is inside the window")
+	}
+	// the field's address handed to a helper that extends the slice through the pointer
+	for _, u := range c.AddrUses(tCom, "RemoteSequenceNumber") {
+		n++
+		stores, ok := c.ptrGrowOnly(u.Instr, false)
+		r.Check(ok, rule, short(u.Fn)+":by-address", c.ipos(u.Instr), fmt.Sprintf("handed by address to a helper that only extends it (%d stores)", stores), "the address of the per-epoch receive positions is handed to code that can replace them by a value that does not carry the earlier ones")
 	}
 	r.Floor(rule, n, 2)
 }
@@ -700,4 +788,117 @@ func ruleCloseReturnsFromHandshakeCallback(c *Ctx, r *Report) {
 		}
 	}
 	r.Check(bare == "", rule, short(fn)+":wait-for-handshake", c.pos(fn.Pos()), "Close does not wait unconditionally for the running Handshake call", "Close waits for the running Handshake call with a bare receive ("+bare+"): called from a handshake callback - which runs on the state machine's goroutine, the one Handshake is waiting for - it never returns, and neither does Handshake")
+}
+
+// returnsPieceOfInput: every non-nil value the function returns as result #idx is a slice (or a
+// clone of a slice) of one of its own byte-slice parameters: a reader helper that hands back a
+// vector and the remainder, not a decoder that builds a value.
+func returnsPieceOfInput(c *Ctx, g *ssa.Function, idx int) bool {
+	if len(g.Blocks) == 0 {
+		return false
+	}
+	n := 0
+	for _, b := range g.Blocks {
+		ret, ok := b.Instrs[len(b.Instrs)-1].(*ssa.Return)
+		if !ok || b == g.Recover || idx >= len(ret.Results) {
+			continue
+		}
+		rv := unspill(ret.Results[idx])
+		if isNilConst(rv) {
+			continue
+		}
+		n++
+		okAll := true
+		for _, l := range c.Origins(rv, 0) {
+			p, isP := l.(*ssa.Parameter)
+			if !isP || p.Parent() != g || !isByteSlice(p.Type()) {
+				okAll = false
+			}
+		}
+		if !okAll {
+			return false
+		}
+	}
+	return n > 0
+}
+
+// pulledMessage: the asserted value is pull.Messages[T] with pull the result of a handshake cache
+// pull made in the same function.
+func pulledMessage(x *ssa.TypeAssert, rootOf func(ssa.Value) ssa.Value) bool {
+	lk, isLk := x.X.(*ssa.Lookup)
+	if !isLk {
+		return false
+	}
+	_, f, base, isF := fieldLoad(lk.X)
+	if !isF || f != "Messages" {
+		return false
+	}
+	if al, isAl := rootOf(base).(*ssa.Alloc); isAl {
+		for _, ref := range *al.Referrers() {
+			if st, isSt := ref.(*ssa.Store); isSt && st.Addr == ssa.Value(al) {
+				if pc, isCall := st.Val.(*ssa.Call); isCall && strings.Contains(calleeName(&pc.Call), "Cache).FullPullMap") {
+					return true
+				}
+			}
+		}
+		return false
+	}
+	pc, isCall := base.(*ssa.Call)
+	return isCall && strings.Contains(calleeName(&pc.Call), "Cache).FullPullMap")
+}
+
+// keepsPrefix: the slice value is `base` (as recognised by isBase) or base extended - appended to,
+// grown, re-sliced from its start, or handed to a module helper that returns its parameter
+// extended in these ways - so that every element base had is still there.
+func keepsPrefix(c *Ctx, v ssa.Value, isBase func(ssa.Value) bool, d int, busy map[ssa.Value]bool) bool {
+	if d > 6 {
+		return false
+	}
+	ls := c.Origins(v, 0)
+	return len(ls) > 0 && allLeaves(ls, func(l ssa.Value) bool {
+		if isBase(l) {
+			return true
+		}
+		if busy[l] {
+			return true // a grow loop feeds its own append
+		}
+		call, isCall := l.(*ssa.Call)
+		if !isCall {
+			return false
+		}
+		busy[l] = true
+		defer delete(busy, l)
+		name := calleeName(&call.Call)
+		switch {
+		case name == "builtin:append":
+			return keepsPrefix(c, call.Call.Args[0], isBase, d+1, busy)
+		case strings.HasPrefix(name, "slices.Grow["):
+			return keepsPrefix(c, call.Call.Args[0], isBase, d+1, busy)
+		}
+		g := call.Call.StaticCallee()
+		if g == nil || !inModule(g) || len(g.Blocks) == 0 || g.Signature.Results().Len() != 1 {
+			return false
+		}
+		var par *ssa.Parameter
+		for i, a := range call.Call.Args {
+			if i < len(g.Params) && types.Identical(g.Params[i].Type(), call.Type()) && keepsPrefix(c, a, isBase, d+1, busy) {
+				par = g.Params[i]
+			}
+		}
+		if par == nil {
+			return false
+		}
+		n := 0
+		for _, b := range g.Blocks {
+			ret, isRet := b.Instrs[len(b.Instrs)-1].(*ssa.Return)
+			if !isRet || b == g.Recover {
+				continue
+			}
+			n++
+			if !keepsPrefix(c, ret.Results[0], func(x ssa.Value) bool { return x == ssa.Value(par) }, d+1, busy) {
+				return false
+			}
+		}
+		return n > 0
+	})
 }
